@@ -7,7 +7,8 @@ is a theorem about what the code says now, not a sample.  Anything outside the s
 reports the correspondence as broken and falls back to the differential search for a failing input).
 
 Functions: tcp_signatures_match, calculate_window_multiplier, round_frequency, guess_distance, should_fingerprint,
-valid_for_tcp_fingerprint.
+valid_for_tcp_fingerprint; group uptime also: the body of fingerprint_uptime after parse_packet and Uptime.__post_init__
+(section "fingerprint_uptime (body)" below: floats are rendered as exact rationals, an ASSUMED abstraction stated there).
 """
 import ast
 import os
@@ -1163,6 +1164,366 @@ def gen_http_sig_match(repo, consts, hattrs):
     return "\n".join(out)
 
 
+# ---------------------------------------------------------------- fingerprint_uptime (body) and Uptime.__post_init__
+# Types of this section: Z (Python int), B (bool), Q (Python float), NONE, "OPT Z", UPT (an Uptime object).
+#
+# ASSUMED ABSTRACTION (float = exact rational).  Every float-valued Python expression is rendered as an EXACT rational, a pair
+# (num, den) of Z with den <> 0: a float literal is its exact value (float.as_integer_ratio), int * float / float * int multiply the
+# numerator, x / y (true division) multiplies the denominator by y (or cross-multiplies when y is a float), int(x) is Z.quot num den
+# (truncation towards zero), and comparisons (also mixed int / float) are decided by sign-aware cross-multiplication (gen_q_le /
+# gen_q_lt below: correct for either sign of the denominators).  The real code rounds each float operation to binary64; DESIGN C13
+# argues, and the harness checks bit-for-bit, that for the thresholds considered rounding cannot flip one of these comparisons.  That
+# argument is NOT part of what is proved from the generated term.
+# Integers: a // b is Z.div and a % b is Z.modulo (both floor like Python); x & m is Z.land and ~x is Z.lnot (two's complement on
+# unbounded integers on both sides, so `x & 0xFFFFFFFF` of a negative x is x mod 2^32: proved in GenP_uptime.v, not assumed here).
+# ZeroDivisionError: every /, // and % whose divisor is not a non-zero literal is guarded, `if divisor =? 0 then Err (Crash COther)`,
+# at the point where Python evaluates it: a test that contains such an operation is unfolded into the decision tree of and / or / not
+# (short-circuit order), so a division that Python never reaches is not guarded either.
+UPT_PRELUDE = """From PV Require Import Model.Uptime.
+(* Floats as exact rationals (num, den), den <> 0 (ASSUMED abstraction, see translate/py2coq.py and DESIGN C13).
+   x <= y and x < y by cross-multiplication, for either sign of the denominators. *)
+Definition gen_q_le (x y : Z * Z) : bool :=
+  if 0 <? snd x * snd y then fst x * snd y <=? fst y * snd x else fst y * snd x <=? fst x * snd y.
+Definition gen_q_lt (x y : Z * Z) : bool :=
+  if 0 <? snd x * snd y then fst x * snd y <? fst y * snd x else fst y * snd x <? fst x * snd y.
+(* results/uptime.py: the Uptime object (raw_frequency and the three fields __post_init__ computes) and UptimeResult without its packet *)
+Record gen_uptime_obj := { gu_raw_frequency : Z * Z; gu_frequency : Z; gu_total_minutes : Z; gu_modulo_days : Z }.
+Record gen_uptime_result := { gr_tps : option Z; gr_uptime : option gen_uptime_obj }."""
+UPT_PARAMS = {"o", "frag", "ty", "ts", "last", "ms", "timestamp", "raw_frequency"}
+ZERO_DIV = "(Err (Crash COther) (* ZeroDivisionError *))"
+
+
+class UEnv:
+    def __init__(self, table, calls=None):
+        self.table = dict(table)      # dotted python path -> (value, type); a Q value is a pair (num term, den term)
+        self.locals = {}              # python name (possibly self.x) -> type
+        self.cnames = {}              # python name -> coq identifier
+        self.calls = dict(calls or {})
+
+
+def u_cname(env, name, node=None):
+    c = name.replace(".", "_")
+    if c in COQ_RESERVED or c in UPT_PARAMS:
+        c += "_"
+    for other, oc in env.cnames.items():
+        if oc == c and other != name:
+            fail(node, "local names %s and %s collide" % (other, name))
+    env.cnames[name] = c
+    return c
+
+
+def u_literal_nonzero(e):
+    if isinstance(e, ast.Constant) and isinstance(e.value, (int, float)) and not isinstance(e.value, bool):
+        return e.value != 0
+    if isinstance(e, ast.BinOp) and isinstance(e.op, ast.Mult):
+        return u_literal_nonzero(e.left) and u_literal_nonzero(e.right)
+    return False
+
+
+def u_fallible(e):
+    """Does evaluating e possibly raise ZeroDivisionError (a /, // or % by something that is not a non-zero literal)?"""
+    return any(isinstance(n, ast.BinOp) and isinstance(n.op, (ast.Div, ast.FloorDiv, ast.Mod)) and not u_literal_nonzero(n.right) for n in ast.walk(e))
+
+
+def u_q(v, ty, node):
+    if ty == "Q":
+        return v
+    if ty == "Z":
+        return (v, "1")
+    fail(node, "a number is expected, not %s" % ty)
+
+
+def u_pair(q):
+    return "(%s, %s)" % q
+
+
+def uexpr(e, env):
+    """-> (value, type, guards): guards are the Z terms that must be non-zero for the evaluation not to raise ZeroDivisionError"""
+    d = dotted(e)
+    if d is not None:
+        if d in env.locals:
+            c, ty = env.cnames[d], env.locals[d]
+            return (("(fst %s)" % c, "(snd %s)" % c) if ty == "Q" else c), ty, []
+        if d in env.table:
+            return env.table[d][0], env.table[d][1], []
+        head, _, path = d.rpartition(".")
+        if head in env.locals and env.locals[head] == "UPT" and path in ("frequency", "total_minutes", "modulo_days"):
+            return "(gu_%s %s)" % (path, env.cnames[head]), "Z", []
+        fail(e, "unknown name")
+    if isinstance(e, ast.Constant):
+        if e.value is None:
+            return "None", "NONE", []
+        if isinstance(e.value, bool):
+            return ("true" if e.value else "false"), "B", []
+        if isinstance(e.value, int):
+            return "(%d)" % e.value, "Z", []
+        if isinstance(e.value, float) and e.value == e.value and abs(e.value) != float("inf"):
+            n, dn = e.value.as_integer_ratio()          # the exact value of the literal
+            return ("(%d)" % n, "%d" % dn), "Q", []
+        fail(e, "constant")
+    if isinstance(e, ast.UnaryOp):
+        if isinstance(e.op, ast.Not):
+            if u_fallible(e.operand):
+                fail(e, "fallible operation under 'not' in an expression")
+            return "(negb %s)" % utruthy(e.operand, env)[0], "B", []
+        v, ty, g = uexpr(e.operand, env)
+        if isinstance(e.op, ast.USub) and ty == "Z":
+            return "(- %s)" % v, "Z", g
+        if isinstance(e.op, ast.USub) and ty == "Q":
+            return ("(- %s)" % v[0], v[1]), "Q", g
+        if isinstance(e.op, ast.Invert) and ty == "Z":
+            return "(Z.lnot %s)" % v, "Z", g
+        fail(e, "unary operator on %s" % ty)
+    if isinstance(e, ast.BinOp):
+        a, ta, ga = uexpr(e.left, env)
+        b, tb, gb = uexpr(e.right, env)
+        g = ga + gb
+        zops = {ast.Add: "Z.add", ast.Sub: "Z.sub", ast.Mult: "Z.mul", ast.BitAnd: "Z.land", ast.BitOr: "Z.lor", ast.BitXor: "Z.lxor"}
+        for k, f in zops.items():
+            if isinstance(e.op, k) and (ta, tb) == ("Z", "Z"):
+                return "(%s %s %s)" % (f, a, b), "Z", g
+        if isinstance(e.op, (ast.FloorDiv, ast.Mod)) and (ta, tb) == ("Z", "Z"):
+            f = "Z.div" if isinstance(e.op, ast.FloorDiv) else "Z.modulo"
+            return "(%s %s %s)" % (f, a, b), "Z", g + ([] if u_literal_nonzero(e.right) else [b])
+        if isinstance(e.op, ast.Mult) and {ta, tb} <= {"Z", "Q"}:
+            if ta == "Z":
+                return ("(Z.mul %s %s)" % (a, b[0]), b[1]), "Q", g
+            if tb == "Z":
+                return ("(Z.mul %s %s)" % (a[0], b), a[1]), "Q", g
+            return ("(Z.mul %s %s)" % (a[0], b[0]), "(Z.mul %s %s)" % (a[1], b[1])), "Q", g
+        if isinstance(e.op, ast.Div) and {ta, tb} <= {"Z", "Q"}:
+            nz = [] if u_literal_nonzero(e.right) else [b if tb == "Z" else b[0]]
+            if (ta, tb) == ("Z", "Z"):
+                return (a, b), "Q", g + nz
+            if tb == "Z":
+                return (a[0], "(Z.mul %s %s)" % (a[1], b)), "Q", g + nz
+            qa = u_q(a, ta, e)
+            return ("(Z.mul %s %s)" % (qa[0], b[1]), "(Z.mul %s %s)" % (qa[1], b[0])), "Q", g + nz
+        fail(e, "binary operator on %s and %s" % (ta, tb))
+    if isinstance(e, ast.BoolOp):
+        if u_fallible(e):
+            fail(e, "fallible operation under and/or in an expression")
+        parts = [utruthy(v, env)[0] for v in e.values]
+        return "(" + (" && " if isinstance(e.op, ast.And) else " || ").join(parts) + ")", "B", []
+    if isinstance(e, ast.Compare):
+        if len(e.ops) > 1 and any(u_fallible(c) for c in e.comparators[1:]):
+            fail(e, "fallible operation in the tail of a chained comparison")
+        operands = [uexpr(x, env) for x in [e.left] + list(e.comparators)]
+        g = [x for o in operands for x in o[2]]
+        parts = []
+        for op, (a, ta, _), (b, tb, _) in zip(e.ops, operands, operands[1:]):
+            if isinstance(op, (ast.Eq, ast.NotEq)):
+                if (ta, tb) != ("Z", "Z"):
+                    fail(e, "equality between %s and %s" % (ta, tb))
+                parts.append(("(Z.eqb %s %s)" if isinstance(op, ast.Eq) else "(negb (Z.eqb %s %s))") % (a, b))
+            elif isinstance(op, (ast.Lt, ast.LtE, ast.Gt, ast.GtE)):
+                if (ta, tb) == ("Z", "Z"):
+                    parts.append("(%s %s %s)" % (a, {ast.Lt: "<?", ast.LtE: "<=?", ast.Gt: ">?", ast.GtE: ">=?"}[type(op)], b))
+                else:
+                    qa, qb = u_pair(u_q(a, ta, e)), u_pair(u_q(b, tb, e))
+                    if isinstance(op, (ast.Gt, ast.GtE)):
+                        qa, qb = qb, qa
+                    parts.append("(%s %s %s)" % ("gen_q_lt" if isinstance(op, (ast.Lt, ast.Gt)) else "gen_q_le", qa, qb))
+            else:
+                fail(e, "comparison operator")
+        return (parts[0] if len(parts) == 1 else "(" + " && ".join(parts) + ")"), "B", g
+    if isinstance(e, ast.IfExp):
+        if u_fallible(e):
+            fail(e, "fallible operation in a conditional expression")
+        c = utruthy(e.test, env)[0]
+        a, ta, _ = uexpr(e.body, env)
+        b, tb, _ = uexpr(e.orelse, env)
+        if (ta, tb) == ("Z", "NONE"):
+            a, ta, tb = "(Some %s)" % a, "OPT Z", "OPT Z"
+        if (ta, tb) == ("NONE", "Z"):
+            b, ta, tb = "(Some %s)" % b, "OPT Z", "OPT Z"
+        if ta != tb or ta == "Q":
+            fail(e, "branches of type %s and %s" % (ta, tb))
+        return "(if %s then %s else %s)" % (c, a, b), ta, []
+    if isinstance(e, ast.Call):
+        fn = dotted(e.func)
+        if fn in env.calls and not e.keywords and len(e.args) == env.calls[fn][0]:
+            args = [uexpr(a, env) for a in e.args]
+            v, ty = env.calls[fn][1](args, e)
+            return v, ty, [x for a in args for x in a[2]]
+        fail(e, "call")
+    fail(e, "expression")
+
+
+def utruthy(e, env):
+    v, ty, g = uexpr(e, env)
+    if ty == "B":
+        return v, g
+    if ty == "Z":
+        return "(negb (Z.eqb %s 0))" % v, g
+    fail(e, "truthiness of %s" % ty)
+
+
+def u_guard(guards, term):
+    for gd in reversed(guards):
+        term = "(if (Z.eqb %s 0) then %s else\n %s)" % (gd, ZERO_DIV, term)
+    return term
+
+
+def ucond(e, env, kt, kf):
+    """`if e: kt else: kf`; a test that can raise is unfolded into its short-circuit decision tree"""
+    if u_fallible(e):
+        if isinstance(e, ast.UnaryOp) and isinstance(e.op, ast.Not):
+            return ucond(e.operand, env, kf, kt)
+        if isinstance(e, ast.BoolOp):
+            term = kf if isinstance(e.op, ast.Or) else kt
+            for v in reversed(e.values):
+                term = ucond(v, env, kt, term) if isinstance(e.op, ast.Or) else ucond(v, env, term, kf)
+            return term
+    t, g = utruthy(e, env)
+    return u_guard(g, "(if %s\n then %s\n else %s)" % (t, kt, kf))
+
+
+def u_ends(stmts):
+    for s in stmts:
+        if isinstance(s, (ast.Return, ast.Raise)):
+            return True
+        if isinstance(s, ast.If) and s.orelse and u_ends(s.body) and u_ends(s.orelse):
+            return True
+    return False
+
+
+def ublock(stmts, env, ret, fall=None, special=None):
+    if not stmts:
+        if fall is None:
+            fail(None, "control reaches the end of the function without return")
+        return fall(env)
+    s, rest = stmts[0], stmts[1:]
+    if isinstance(s, ast.Expr) and isinstance(s.value, ast.Constant) and isinstance(s.value.value, str):
+        return ublock(rest, env, ret, fall, special)
+    if isinstance(s, ast.Return):
+        return ret(s.value, env)
+    if isinstance(s, ast.Raise):
+        if isinstance(s.exc, ast.Call) and dotted(s.exc.func) == "PacketError" and s.cause is None:
+            return "(Err PacketError)"
+        fail(s, "raise")
+    if isinstance(s, ast.If):
+        saved, saved_c = dict(env.locals), dict(env.cnames)
+        a = ublock(list(s.body) + ([] if u_ends(s.body) else rest), env, ret, fall, special)
+        env.locals, env.cnames = dict(saved), dict(saved_c)
+        b = ublock(list(s.orelse) + ([] if (s.orelse and u_ends(s.orelse)) else rest), env, ret, fall, special)
+        env.locals, env.cnames = saved, saved_c
+        return ucond(s.test, env, a, b)
+    if isinstance(s, ast.Assign) and len(s.targets) == 1 and dotted(s.targets[0]) is not None:
+        name = dotted(s.targets[0])
+        if isinstance(s.targets[0], ast.Attribute) and not (name.startswith("self.") and name in getattr(env, "fields", ())):
+            fail(s, "assignment target")
+        if special is not None:
+            r = special(s, env)
+            if r is not None:
+                pre, ty = r
+                env.locals[name] = ty
+                c = u_cname(env, name, s)
+                return pre % (c, ublock(rest, env, ret, fall, special))
+        v, ty, g = uexpr(s.value, env)
+        if ty not in ("Z", "Q", "B"):
+            fail(s, "assignment of a %s" % ty)
+        env.locals[name] = ty
+        c = u_cname(env, name, s)
+        return u_guard(g, "(let %s := %s in\n %s)" % (c, u_pair(v) if ty == "Q" else v, ublock(rest, env, ret, fall, special)))
+    fail(s, "statement")
+
+
+def class_fields(tree, cls):
+    for n in ast.walk(tree):
+        if isinstance(n, ast.ClassDef) and n.name == cls:
+            return [(m.target.id, ast.unparse(m.annotation), None if m.value is None else ast.unparse(m.value)) for m in n.body if isinstance(m, ast.AnnAssign)]
+    raise Unsupported("class %s not found" % cls)
+
+
+def gen_uptime_body(repo, consts):
+    out = [UPT_PRELUDE]
+    rtree = ast.parse(open(os.path.join(repo, "pyp0f/fingerprint/results/uptime.py")).read())
+    # ---- the shapes of the two result classes and BAD_TPS
+    if class_fields(rtree, "Uptime") != [("timestamp", "InitVar[int]", None), ("raw_frequency", "float", None), ("frequency", "int", "field(init=False)"),
+                                        ("total_minutes", "int", "field(init=False)"), ("modulo_days", "int", "field(init=False)")]:
+        raise Unsupported("fields of Uptime changed")
+    if class_fields(rtree, "UptimeResult") != [("packet", "Packet", None), ("tps", "Optional[int]", "None"), ("uptime", "Optional[Uptime]", "None")]:
+        raise Unsupported("fields of UptimeResult changed")
+    bad = [n for n in rtree.body if isinstance(n, ast.Assign) and dotted(n.targets[0]) == "BAD_TPS"]
+    if len(bad) != 1 or not (isinstance(bad[0].value, (ast.Constant, ast.UnaryOp))):
+        raise Unsupported("BAD_TPS is not a literal")
+    bad_tps, tb, _ = uexpr(bad[0].value, UEnv({}))
+    if tb != "Z":
+        fail(bad[0], "BAD_TPS is not an integer")
+    otree = ast.parse(open(os.path.join(repo, "pyp0f/options.py")).read())
+    ofields = {k: t for k, t, _ in class_fields(otree, "Options")}
+    for k, t in (("min_timestamp_scale", "float"), ("max_timestamp_scale", "float"), ("min_timestamp_wait", "int"), ("max_timestamp_wait", "int"), ("timestamp_grace", "int")):
+        if ofields.get(k) != t:
+            raise Unsupported("Options.%s is not declared %s" % (k, t))
+    # ---- Uptime.__post_init__
+    f = find_function(rtree, "__post_init__", cls="Uptime")
+    if [a.arg for a in f.args.args] != ["self", "timestamp"] or f.args.kwonlyargs or f.args.vararg or f.args.kwarg or f.args.defaults:
+        fail(f, "Uptime.__post_init__ parameters")
+    find_function(rtree, "round_frequency")
+    calls = {"round_frequency": (1, lambda a, e: ("(gen_round_frequency (Z.quot %s %s))" % a[0][0], "Z") if a[0][1] == "Q" else fail(e, "round_frequency of a non-float")),
+             "int": (1, lambda a, e: ("(Z.quot %s %s)" % a[0][0], "Z") if a[0][1] == "Q" else (a[0][0], "Z") if a[0][1] == "Z" else fail(e, "int()"))}
+    env = UEnv({"timestamp": ("timestamp", "Z"), "self.raw_frequency": (("(fst raw_frequency)", "(snd raw_frequency)"), "Q")}, calls)
+    env.fields = ("self.frequency", "self.total_minutes", "self.modulo_days")
+
+    def no_ret(v, env):
+        if v is not None:
+            fail(v, "__post_init__ returns a value")
+        return done(env)
+
+    def done(env):
+        for k in env.fields:
+            if env.locals.get(k) != "Z":
+                raise Unsupported("Uptime.__post_init__ does not assign %s (an int)" % k)
+        return "(Ok {| gu_raw_frequency := raw_frequency; gu_frequency := %s; gu_total_minutes := %s; gu_modulo_days := %s |})" % tuple(env.cnames[k] for k in env.fields)
+    out.append("Definition gen_uptime_post_init (timestamp : Z) (raw_frequency : Z * Z) : res gen_uptime_obj :=\n %s." % ublock(list(f.body), env, no_ret, done))
+    # ---- fingerprint_uptime, after packet = parse_packet(packet)
+    f = find_function(ast.parse(open(os.path.join(repo, "pyp0f/fingerprint/uptime.py")).read()), "fingerprint_uptime")
+    a = f.args
+    if [x.arg for x in a.args] != ["packet", "last_packet_signature"] or [x.arg for x in a.kwonlyargs] != ["options"] or a.vararg or a.kwarg or a.defaults \
+            or [ast.unparse(x) for x in a.kw_defaults] != ["OPTIONS"]:
+        fail(f, "fingerprint_uptime parameters")
+    body = [s for s in f.body if not (isinstance(s, ast.Expr) and isinstance(s.value, ast.Constant))]
+    if not body or ast.unparse(body[0]) != "packet = parse_packet(packet)":
+        fail(f, "fingerprint_uptime prologue")
+    table = {"packet.tcp.options.timestamp": ("ts", "Z"), "last_packet_signature.options.timestamp": ("last", "Z"), "packet.tcp.type": ("ty", "Z"),
+             "TCPFlag.SYN": consts["TCPFlag.SYN"], "TCPFlag.ACK": consts["TCPFlag.ACK"], "BAD_TPS": (bad_tps, "Z"),
+             "options.min_timestamp_wait": ("(min_wait o)", "Z"), "options.max_timestamp_wait": ("(max_wait o)", "Z"), "options.timestamp_grace": ("(grace o)", "Z"),
+             "options.min_timestamp_scale": (("(fst (min_sc o))", "(snd (min_sc o))"), "Q"), "options.max_timestamp_scale": (("(fst (max_sc o))", "(snd (max_sc o))"), "Q")}
+    calls = {"valid_for_uptime_fingerprint": (1, lambda a, e: ("(gen_valid_for_uptime_fingerprint frag ty)", "B") if dotted(e.args[0]) == "packet" else fail(e, "argument"))}
+    env = UEnv(table, calls)
+    env.table["packet"] = ("tt", "PACKET")
+
+    def special(s, env):
+        if ast.unparse(s.value).startswith("get_unix_time_ms()") or dotted(s.targets[0]) == "ms_diff":
+            # the clock: the elapsed time is an INPUT of the generated function
+            if ast.unparse(s) != "ms_diff = get_unix_time_ms() - last_packet_signature.received":
+                fail(s, "the elapsed time is not 'get_unix_time_ms() - last_packet_signature.received'")
+            return "(let %s := ms in\n %s)", "Z"
+        if isinstance(s.value, ast.Call) and dotted(s.value.func) == "Uptime":
+            c = s.value
+            if len(c.args) != 2 or c.keywords:
+                fail(s, "Uptime(...) arguments")
+            (t, tt, gt), (r, tr, gr) = uexpr(c.args[0], env), uexpr(c.args[1], env)
+            if (tt, tr) != ("Z", "Q") or gt or gr:
+                fail(s, "Uptime(timestamp: int, raw_frequency: float)")
+            return "(match gen_uptime_post_init %s %s with\n | Err e => Err e\n | Ok %%s =>\n %%s\n end)" % (t, u_pair(r)), "UPT"
+        return None
+
+    def ret(v, env):
+        if not (isinstance(v, ast.Call) and dotted(v.func) == "UptimeResult" and len(v.args) == 1 and dotted(v.args[0]) == "packet"
+                and "packet" not in env.locals and len({k.arg for k in v.keywords}) == len(v.keywords) and {k.arg for k in v.keywords} <= {"tps", "uptime"}):
+            fail(v, "expected return UptimeResult(packet[, tps=...][, uptime=...])")
+        kw = {k.arg: uexpr(k.value, env) for k in v.keywords}
+        tps, tt, g1 = kw.get("tps", ("None", "NONE", []))
+        up, tu, g2 = kw.get("uptime", ("None", "NONE", []))
+        tps = {"Z": "(Some %s)" % tps, "OPT Z": tps, "NONE": "None"}.get(tt) or fail(v, "tps of type %s" % tt)
+        up = {"UPT": "(Some %s)" % up, "NONE": "None"}.get(tu) or fail(v, "uptime of type %s" % tu)
+        return u_guard(g1 + g2, "(Ok {| gr_tps := %s; gr_uptime := %s |})" % (tps, up))
+    out.append("Definition gen_fingerprint_uptime (o : uopts) (frag : bool) (ty ts last ms : Z) : res gen_uptime_result :=\n %s." % ublock(body[1:], env, ret, None, special))
+    return "\n".join(out)
+
+
 HEADER = """(* GENERATED by translate/py2coq.py from %s (group %s) -- regenerated on every check run; do not edit. *)
 From PV Require Import Model.Prelude Model.Bits Model.Sig Model.Select Model.Mtu Model.Options Model.Text Model.SigParse Model.DbParse Model.HttpRead Model.HttpMatch Gen.GenLib.
 %s"""
@@ -1171,7 +1532,7 @@ From PV Require Import Model.Prelude Model.Bits Model.Sig Model.Select Model.Mtu
 # affects the properties that rest on that group.  "select" uses the matcher of "match".
 GROUPS = {
     "match": ([], [gen_win_multi, gen_match]),
-    "uptime": ([], [gen_round, gen_gates, lambda r, c: gen_valid_for(r, c, "uptime")]),
+    "uptime": ([], [gen_round, gen_gates, lambda r, c: gen_valid_for(r, c, "uptime"), gen_uptime_body]),
     "select": (["match"], [gen_guess, gen_gates, lambda r, c: gen_valid_for(r, c, "tcp"), gen_find_tcp, gen_distance_fn]),
     "mtu": ([], [gen_gates, lambda r, c: gen_valid_for(r, c, "mtu"), gen_mtu_sig, gen_find_mtu, gen_imp_mtu]),
     "options": ([], [gen_options]),
